@@ -101,7 +101,9 @@ def observe_program(B, rec_xs, rec_ys, eqs, cases, rnd, res, stage, sp, f, space
     func = B.func
     try:
         fc = func.convex_conj
-    except NotImplementedError:
+    except (NotImplementedError, ValueError):
+        # not offered / refused with an explanation ("scaling with nonpositive values have no convex conjugate":
+        # ODL rewrites f*s into s*f for a linear f and then refuses a negative s)
         res['noconj'] += 1
         return
     except Exception as e:
@@ -302,11 +304,13 @@ def driver_programs(quick, rnd):
         leaves = [mkf('L1'), mkf('L2'), mkf('L2sq'), mkf('IndBall2'), mkf('IndBallInf'), mkf('Const', 0, 3),
                   mkf('IndZero', 0, 1), mkf('Quad', 0, 1, v=[2] * N, u=alt(1, -H)), mkf('Quad', 0, 1, u=alt(1, -H))]
         if kind != 'pspace':
-            leaves += [mkf('Huber', (1, 2)), mkf('KL', v=alt(1, 2)), mkf('KLcc', v=alt(1, 2))]
+            leaves += [mkf('Huber', (1, 2)), mkf('Huber', 2), mkf('KL', v=alt(1, 2)), mkf('KLcc', v=alt(1, 2)), mkf('KL'),
+                       mkf('KLcc')]
         if m == 1:
             leaves += [mkf('Linf'), mkf('IndBall1'), mkf('Quad', 0, 0, v=alt(1, H))]
         if kind == 'power':
-            leaves += [mkf('GroupL1'), mkf('IndGroupBall')]
+            leaves += [mkf('GroupL1'), mkf('IndGroupBall'), mkf('GroupL1', 1), dict(mkf('GroupL1'), s=[1, 0]),
+                       mkf('IndGroupBall', 1), dict(mkf('IndGroupBall'), s=[1, 0])]
         if kind == 'pspace':
             leaves = [mkf('SepSum', args=[a, b]) for a, b in [(mkf('L1'), mkf('L2sq')), (mkf('L2'), mkf('IndBallInf')),
                                                               (mkf('Huber', (1, 2)), mkf('L1'))]] + leaves[:4]
@@ -369,6 +373,162 @@ def driver_program(arg):
     return res
 
 
+
+# ------------------------------------------------------------------ parametrised conjugate pairs (relational)
+def _dual_vec(xv, w, p):
+    """The Hoelder-dual direction of a vector for the p-norm with measure w: <x, y>_w = |x|_p and |y|_q = 1.
+    (Only used to CHOOSE graph pairs (x, y); what is checked is a relation between observed numbers.)"""
+    xv = np.asarray(xv, dtype=float)
+    if not np.any(xv):
+        return np.zeros_like(xv)
+    if p == 1:
+        return np.sign(xv)
+    if np.isinf(p):
+        k = int(np.argmax(np.abs(xv)))
+        y = np.zeros_like(xv)
+        y[k] = np.sign(xv[k]) / w[k]
+        return y
+    nrm = float(np.sum(w * np.abs(xv) ** p)) ** (1.0 / p)
+    return np.abs(xv) ** (p - 1) * np.sign(xv) / nrm ** (p - 1)
+
+
+def pair_recipes():
+    """(name, option, builder) ; builder() -> dict(space, norm, ball, dual(x flat) or None, el(flat), N, pts)"""
+    import odl
+    S = fu.S
+    out = []
+
+    def lp(mk, p):
+        X = mk()
+        w = np.array([float(X.one().inner(X.one())) / X.size] * X.size)
+        return {'space': X, 'norm': S.LpNorm(X, p), 'ball': S.IndicatorLpUnitBall(X, fu.odl.util.conj_exponent(p)),
+                'dual': lambda xv: _dual_vec(xv, w, p), 'N': X.size}
+    for nm, mk in [('rn', lambda: odl.rn(3)), ('rnw', lambda: odl.rn(3, weighting=4.0)),
+                   ('discr', lambda: odl.uniform_discr(0, 1.5, 3))]:
+        for pe in (1, 1.5, 2, 3, 4, np.inf):
+            out.append(('LpNorm', 'exponent=%s space=%s' % (pe, nm), lambda mk=mk, pe=pe: lp(mk, pe)))
+
+    def grp(m, pe):
+        V = odl.uniform_discr(0, 1.5, 3) ** m
+        w = 0.5
+
+        def dual(xv):
+            arr = np.asarray(xv, dtype=float).reshape(m, 3)
+            y = np.zeros_like(arr)
+            for i in range(3):
+                if np.isinf(pe):
+                    k = int(np.argmax(np.abs(arr[:, i])))
+                    y[k, i] = np.sign(arr[k, i])
+                else:
+                    y[:, i] = _dual_vec(arr[:, i], np.ones(m), pe)
+            return y.ravel()
+        return {'space': V, 'norm': S.GroupL1Norm(V, exponent=pe),
+                'ball': S.IndicatorGroupL1UnitBall(V, exponent=fu.odl.util.conj_exponent(pe)), 'dual': dual, 'N': 3 * m}
+    for m in (2, 3):
+        for pe in (1, 2, np.inf):
+            out.append(('GroupL1Norm', 'exponent=%s m=%d' % (pe, m), lambda m=m, pe=pe: grp(m, pe)))
+
+    def nuc(oe, se):
+        M = odl.ProductSpace(odl.ProductSpace(odl.rn(2), 2), 2)
+        ce = fu.odl.util.conj_exponent
+        return {'space': M, 'norm': S.NuclearNorm(M, oe, se), 'ball': S.IndicatorNuclearNormUnitBall(M, ce(oe), ce(se)),
+                'dual': None, 'N': 8}
+    for oe, se in [(1, 1), (1, 2), (1, np.inf), (2, 2), (np.inf, 1)]:
+        out.append(('NuclearNorm', 'outer_exp=%s singular_vector_exp=%s' % (oe, se), lambda oe=oe, se=se: nuc(oe, se)))
+    return out
+
+
+def pair_program(arg):
+    """Fenchel-Young (inequality everywhere, equality at graph pairs), biconjugate and Moreau for one parametrised
+    pair, starting from BOTH members; only relations between observed numbers (event kind "rel")."""
+    idx, seed, npts = arg
+    name, option, mk = pair_recipes()[idx]
+    res = _new_res()
+    R = mk()
+    X, N = R['space'], R['N']
+    rnd = _rnd(name + option, seed)
+    el = lambda v: fu.element(X, None, list(v))
+    res['classes'] |= {type(R['norm']).__name__, type(R['ball']).__name__}
+    pts = [[Fraction(3) if i % 2 == 0 else Fraction(-4) for i in range(N)], [Fraction(i + 1, 2) for i in range(N)],
+           [Fraction((-1) ** i, 2) for i in range(N)]] + \
+          [[Fraction(rnd.randint(-8, 8), 4) for _ in range(N)] for _ in range(npts)]
+    smalls = [[v / 16 for v in q] for q in pts]                 # inside the unit balls
+    space_name = option
+
+    def emit(start, cl, mode, lhs, rhs, **info):
+        res['counts'].append(([name, option, start, cl, info.get('x'), info.get('y')], True))
+        ok = (lhs >= rhs - SLACK * max(1.0, abs(lhs), abs(rhs))) if mode == 'ge' else close(lhs, rhs)
+        det = {'stage': 'pair', 'recipe': idx, 'name': name, 'option': option, 'start': start,
+               'observed': dict(info, lhs=lhs, rhs=rhs), 'sp': {'kind': 'opaque', 'm': 1, 'n': N, 'W': []},
+               'f': mkf(name)}
+        if not (math.isfinite(lhs) and math.isfinite(rhs)):
+            ok = (lhs == rhs) if mode == 'eq' else (lhs >= rhs)
+        if not ok:
+            res['viol'].append(({'leaf': name, 'ops': name, 'option': option, 'space': 'opaque', 'start': start,
+                                 'clause': cl}, det))
+        ev = fu.rel_event(cl, mode, lhs, rhs)
+        if ev is not None:
+            res['events'].append((ev, det))
+    for start, f in (('norm', R['norm']), ('indicator', R['ball'])):
+        try:
+            fc = f.convex_conj
+            fcc = fc.convex_conj
+        except Exception as e:
+            res['viol'].append(({'leaf': name, 'ops': name, 'option': option, 'space': 'opaque', 'start': start,
+                                 'clause': 'convex_conj-raises', 'error': type(e).__name__},
+                                {'stage': 'pair', 'recipe': idx, 'error': str(e)[:200]}))
+            continue
+        # the member that is an indicator is evaluated inside its ball, the norm anywhere
+        xs = pts if start == 'norm' else smalls
+        ys = smalls if start == 'norm' else pts
+        for xv in xs:
+            x = el(xv)
+            fx = float(f(x))
+            xq = [str(t) for t in xv]
+            emit(start, 'biconjugate', 'eq', float(fcc(x)), fx, x=xq)
+            for yv in ys[:3]:
+                y = el(yv)
+                emit(start, 'fenchel-young-inequality', 'ge', fx + float(fc(y)), float(x.inner(y)), x=xq,
+                     y=[str(t) for t in yv])
+        for xv in pts:                                           # far outside / on the other side as well
+            x = el(xv)
+            emit(start, 'biconjugate', 'eq', float(fcc(x)), float(f(x)), x=[str(t) for t in xv])
+        # equality at graph pairs (x, y): y the dual direction of x
+        if R['dual'] is not None:
+            for xv in pts:
+                yv = R['dual']([float(t) for t in xv])
+                x, y = el(xv), el(yv)
+                if start == 'norm':
+                    a, b, ip = float(f(x)), fu.value_near(fc, _El(el), list(yv), [np.zeros(N)])[0], float(x.inner(y))
+                else:
+                    a, b, ip = fu.value_near(f, _El(el), list(yv), [np.zeros(N)])[0], float(fc(x)), float(x.inner(y))
+                emit(start, 'fenchel-young-equality', 'eq', a + b, ip, x=[str(t) for t in xv], y=list(map(float, yv)))
+    # Moreau: a relation between the two observed proximals of the pair
+    try:
+        P0 = R['norm'].proximal
+        Q0 = R['ball'].proximal
+        have = True
+        P0(1.0), Q0(1.0)
+    except Exception:
+        have = False
+    if have:
+        for s in (0.5, 2.0):
+            for xv in pts[:4]:
+                x = el(xv)
+                try:
+                    r = float((R['norm'].proximal(s)(x) + s * R['ball'].proximal(1.0 / s)(x / s) - x).norm())
+                except Exception:
+                    break
+                emit('norm', 'moreau', 'eq', r, 0.0, x=[str(t) for t in xv], sigma=s)
+    return res
+
+
+class _El(object):
+    """adapter: funcutil.value_near wants an object with .el(vals)"""
+
+    def __init__(self, el):
+        self.el = el
+
 # ------------------------------------------------------------------ check
 def run(ctx):
     quick = ctx.tier == 'quick'
@@ -430,6 +590,8 @@ def run(ctx):
             absorb(o)
         for o in pool.imap(driver_program, [(spd, f, ctx.seed, 2 if quick else 6) for spd, f in dprogs], chunksize=4):
             absorb(o)
+        for o in pool.imap(pair_program, [(i, ctx.seed, 2 if quick else 8) for i in range(len(pair_recipes()))]):
+            absorb(o)
     stage['replay_and_driver'] = round(time.time() - t0 - stage['tlc_model_export'], 1)
     ctx.traces += tot['n']
     ctx.extra['programs_without_convex_conj'] = tot['noconj']
@@ -450,6 +612,10 @@ def run(ctx):
             d['stage'] = 'trace:' + det['stage']
             d['event'] = ev
             d['tlc_clauses'] = clauses
+            if det['stage'] == 'pair':
+                fu.report(ctx, {'leaf': det['name'], 'ops': det['name'], 'option': det['option'], 'space': 'opaque',
+                                'start': det['start'], 'clause': cl}, d)
+                continue
             fu.report(ctx, fu.signature(det['sp'], det['f'], cl.replace('(q)', '')), d)
     ctx.extra['trace_events_validated_by_tlc'] = sink.n
     ctx.extra['trace_events_by_kind'] = sink.kinds
@@ -461,6 +627,14 @@ def run(ctx):
 
 def replay(body):
     d = body['detail']
+    if d['stage'].endswith('pair'):
+        res = pair_program((d['recipe'], body.get('seed', 0), 2))
+        hit = [s for s, _ in res['viol'] if s['clause'] == body['signature']['clause']]
+        print('pair recipe', pair_recipes()[d['recipe']][:2], ':', len(res['viol']), 'contradicted relations now')
+        for s, dd in res['viol'][:3]:
+            print('observed :', s['clause'], s['start'], dd.get('observed'))
+        print('REPRODUCED' if hit else 'NOT-REPRODUCED')
+        return 1 if hit else 0
     sp, f = d['sp'], d['f']
     print('program  :', fu.shape(f), 'on', sp['kind'], 'W =', sp['W'])
     try:
